@@ -194,4 +194,41 @@ theorem kw_key_lengths :
 example : hmacKey "S256" (.obj [("k", .str "AAAAAAAAAAAAAAAAAAAAAAAAAAAAAAAAAAAAAAAAAA")]) = none ∧
     (hmacKey "S256" (.obj [("k", .str "AAAAAAAAAAAAAAAAAAAAAAAAAAAAAAAAAAAAAAAAAAA")])).isSome = true := by decide
 
+
+/-- **RSA key import takes no undecodable member for absent** (after fix `3408cb5`): a key is imported only if
+    every one of `n e d p q dp dq qi` that is present is base64url text that decodes; in particular a present
+    private exponent that does not decode makes the import fail — the key is not quietly used as a public key or
+    through its CRT members. -/
+theorem rsa_members_must_decode (jwk : Json) (key : RsaKey) (h : rsaKeyOf jwk = some key) :
+    ∀ m ∈ ["n", "e", "d", "p", "q", "dp", "dq", "qi"], ∀ v, jwk.get? m = some v → (bytesOfJson (some v)).isSome = true := by
+  simp only [rsaKeyOf] at h
+  split at h
+  · rename_i kty nj ej hk hn he
+    split at h
+    · rename_i n e dO p q dp dq qi hbn hbe hd hp hq hdp hdq hqi
+      have opt_some : ∀ (m : String) (r : Option Bs),
+          (match jwk.get? m with | none => some none | some v => (bytesOfJson (some v)).map some) = some r →
+          ∀ v, jwk.get? m = some v → (bytesOfJson (some v)).isSome = true := by
+        intro m r hm v hv
+        simp only [hv, Option.map_eq_some_iff] at hm
+        obtain ⟨b, hb, _⟩ := hm
+        simp [hb]
+      intro m hm v hv
+      simp only [List.mem_cons, List.mem_nil_iff, or_false] at hm
+      rcases hm with rfl | rfl | rfl | rfl | rfl | rfl | rfl | rfl
+      · rw [hn] at hv; cases hv; simp [hbn]
+      · rw [he] at hv; cases hv; simp [hbe]
+      · exact opt_some "d" dO hd v hv
+      · exact opt_some "p" p hp v hv
+      · exact opt_some "q" q hq v hv
+      · exact opt_some "dp" dp hdp v hv
+      · exact opt_some "dq" dq hdq v hv
+      · exact opt_some "qi" qi hqi v hv
+    · simp at h
+  · simp at h
+
+/-- non-vacuity of the refusal: `d` present but not base64url -/
+example : rsaKeyOf (.obj [("kty", .str "RSA"), ("n", .str "AQAB"), ("e", .str "AQAB"), ("d", .str "!!")]) = none := by
+  decide +kernel
+
 end Jose.Props.C10
